@@ -236,7 +236,8 @@ fn walk(rep: &mut Report, seed: u64, i: u64, rb: Bounds, states: &mut HashSet<(u
             0 => vec![0x61, 0x62],
             1 => vec![],
             _ => {
-                let k = if rng.chance(1, 30) { rng.below(2040) } else { rng.below(12) };
+                // now and then a frame far above any plausible internal chunk size (up to ~40 KiB)
+                let k = if i % 40 == 7 && rng.chance(1, 3) { 2800 + rng.below(11_000) } else if rng.chance(1, 30) { rng.below(2040) } else { rng.below(12) };
                 let v: Vec<u16> = (0..k).map(|_| rng.next_u32() as u16).collect();
                 minicbor::to_vec(&v).unwrap()
             }
@@ -250,7 +251,8 @@ fn walk(rep: &mut Report, seed: u64, i: u64, rb: Bounds, states: &mut HashSet<(u
     let ch: Choices = Rc::new(RefCell::new(Chooser::random(Rng::derive("c15/choices", seed, 1, i))));
     ch.borrow_mut().begin_run();
     rep.eval();
-    let r = mon::guarded(|| run_schedule(&stream, &ch, rb, 8192));
+    let max_len = if i % 40 == 7 { 64 * 1024 } else { 8192 };
+    let r = mon::guarded(|| run_schedule(&stream, &ch, rb, max_len));
     let rp = vec!["c15".into(), "--seed".into(), seed.to_string(), "--replay".into(), "walk".into(), i.to_string()];
     match r {
         Err(p) => rep.violation(&format!("{}|panic", ID), J::obj().with("what", J::s(p.message)).with("stream_len", J::U(stream.len() as u64)), rp),
